@@ -24,6 +24,7 @@ import (
 	"net/http"
 	"net/textproto"
 	"runtime"
+	"sort"
 	"strconv"
 	"strings"
 	"time"
@@ -542,7 +543,19 @@ type grpcMarshaler struct {
 func (m *grpcMarshaler) MarshalWebTrailers(trailer http.Header) *Error {
 	raw := m.envelopeWriter.bufferPool.Get()
 	defer m.envelopeWriter.bufferPool.Put(raw)
-	if err := trailer.Write(raw); err != nil {
+	// Trailers in the body of a gRPC-Web response aren't HTTP headers: the
+	// protocol asks for lower-case names, and clients look them up as written.
+	lower := make(http.Header, len(trailer))
+	keys := make([]string, 0, len(trailer))
+	for key := range trailer {
+		keys = append(keys, key)
+	}
+	sort.Strings(keys)
+	for _, key := range keys {
+		name := strings.ToLower(key)
+		lower[name] = append(lower[name], trailer[key]...)
+	}
+	if err := lower.Write(raw); err != nil {
 		return errorf(CodeInternal, "format trailers: %w", err)
 	}
 	return m.Write(&envelope{
